@@ -572,6 +572,7 @@ type LoopSpec struct {
 	Ordinal    int
 	Invariants []*Clause
 	Assigns    []Expr
+	Uses       []*Clause // lemma instances assumed at the loop header (lemmas are proved separately)
 }
 
 type FuncContract struct {
@@ -608,6 +609,7 @@ type CutSpec struct {
 	Callee     string
 	N          int
 	Invariants []*Clause
+	Uses       []*Clause // lemma instances assumed here; a cut with Uses only does not cut the state
 }
 
 // GhostSet: `ghostset target = expr` -- ghost state has no code; this is its assignment.
@@ -947,7 +949,7 @@ func ParseFile(path string) (*File, error) {
 		case "cut":
 			// cut <label> after <callee>#<n> invariant [..] expr
 			parts := strings.SplitN(rest, " ", 5)
-			if len(parts) < 5 || parts[1] != "after" || parts[3] != "invariant" {
+			if len(parts) < 5 || parts[1] != "after" || (parts[3] != "invariant" && parts[3] != "use") {
 				return nil, fmt.Errorf("%s:%d: bad cut clause (want: cut <label> after <callee>#<n> invariant <expr>)", path, rl.line)
 			}
 			cn := strings.SplitN(parts[2], "#", 2)
@@ -969,7 +971,12 @@ func ParseFile(path string) (*File, error) {
 			if err != nil {
 				return nil, err
 			}
-			cs.Invariants = append(cs.Invariants, c)
+			if parts[3] == "use" {
+				// a lemma instance assumed at this point (no cut of the state)
+				cs.Uses = append(cs.Uses, c)
+			} else {
+				cs.Invariants = append(cs.Invariants, c)
+			}
 		case "loop":
 			// loop N invariant [..] expr | loop N assigns ...
 			parts := strings.SplitN(rest, " ", 3)
@@ -998,6 +1005,12 @@ func ParseFile(path string) (*File, error) {
 					return nil, fmt.Errorf("%s:%d: %v", path, rl.line, err)
 				}
 				ls.Assigns = append(ls.Assigns, es...)
+			case "use":
+				c, err := mkClause(parts[2], rl.line)
+				if err != nil {
+					return nil, err
+				}
+				ls.Uses = append(ls.Uses, c)
 			default:
 				return nil, fmt.Errorf("%s:%d: bad loop clause kind %q", path, rl.line, parts[1])
 			}
